@@ -193,7 +193,8 @@ impl<'a> Explorer<'a> {
         let h = &self.h;
         let pos = &node.pos;
         let board = node.board(h);
-        self.states.fetch_add(1, Ordering::Relaxed);
+        let ordinal = self.states.fetch_add(1, Ordering::Relaxed);
+        let sample_this = ordinal % 1_500_007 == 0 || (node.depth >= 3 && ordinal % 150_001 == 0);
         bump(l, if node.cap { "states_capture_mode" } else { "states_normal_mode" });
 
         // roots: load through the real FEN reader and compare (guard for C15, producer (i) of C05)
@@ -257,6 +258,13 @@ impl<'a> Explorer<'a> {
             self.transitions.fetch_add(succs.len() as u64, Ordering::Relaxed);
             let mut engine_moves: Vec<Option<Mv>> = succs.iter().map(|s| move_of_successor(pos, s)).collect();
             self.compare_lists("C01", "all-moves", node, &mut engine_moves, &oracle_moves);
+            if sample_this {
+                rep.sample(
+                    node.replay_json("sample state: engine move list vs rules move list")
+                        .set("engine_moves", J::s(&engine_moves.iter().flatten().map(|m| m.uci()).collect::<Vec<_>>().join(" ")))
+                        .set("rules_moves", J::s(&oracle_moves.iter().map(|m| m.uci()).collect::<Vec<_>>().join(" "))),
+                );
+            }
 
             let mut used: Vec<Mv> = Vec::new();
             for (succ, mv) in succs.iter().zip(engine_moves.iter()) {
